@@ -8,6 +8,7 @@ import (
 	"io"
 	"sort"
 	"strings"
+	"sync/atomic"
 	"time"
 
 	"github.com/alibaba/RedisShake/pkg/libs/atomic2"
@@ -296,6 +297,12 @@ func c01filesChild(raw json.RawMessage, scratch string) {
 			encs[encClass(x.Encoding)] = true
 			r.Count("records", 1)
 			r.Count("enc:"+encClass(x.Encoding), 1)
+			if len(x.Key) >= 260 && !x.IsScript {
+				r.Count("keys_of_260B_or_more", 1)
+			}
+			if x.IsScript && len(x.Script) >= 260 {
+				r.Count("scripts_of_260B_or_more", 1)
+			}
 		}
 		metas := map[string]bool{}
 		for _, it := range f.Items {
@@ -309,6 +316,7 @@ func c01filesChild(raw json.RawMessage, scratch string) {
 			r.Sample(d)
 		}
 	}
+	r.Count("lzf_backrefs_beyond_256", atomic.LoadInt64(&rdbgen.FarRefs))
 	wk.ChildDone(r)
 }
 
@@ -564,7 +572,7 @@ func c01(c *wk.Ctx) {
 		wk.ReplayOne(c, child, nil, onDeath(child))
 		return
 	}
-	n := c.N(3000, 60000)
+	n := c.N(3000, 240000)
 	nbig := c.N(2, 8)
 	type job struct {
 		name       string
@@ -584,6 +592,9 @@ func c01(c *wk.Ctx) {
 	})
 	r.Floor("records", 5000)
 	r.Floor("big_hash_files", 1)
+	r.Floor("keys_of_260B_or_more", 30)
+	r.Floor("scripts_of_260B_or_more", 30)
+	r.Floor("lzf_backrefs_beyond_256", 300)
 	for _, e := range []string{"string/raw", "string/int", "string/lzf", "list/linked", "list/ziplist", "list/quicklist", "set/table", "set/intset16", "set/intset32", "set/intset64", "zset/text", "zset/binary", "zset/ziplist", "hash/table", "hash/zipmap", "hash/ziplist", "stream"} {
 		r.Floor("enc:"+e, 20)
 	}
